@@ -141,9 +141,9 @@ func (s *MultipartReply) UnmarshalBinary(data []byte) error {
 		case MultipartType_Aggregate:
 			repl = new(AggregateStats)
 		case MultipartType_Desc:
-			repl = new(DescStats)
+			repl = NewDescStats()
 		case MultipartType_Flow:
-			repl = new(FlowStats)
+			repl = NewFlowStats()
 		case MultipartType_Port:
 			repl = new(PortStats)
 		case MultipartType_Table:
